@@ -149,4 +149,10 @@ let () =
           let st = match oc with Finished -> "ok" | Failed e -> "err " ^ err_s e | Diverged -> "fuel" in
           Printf.printf "%s |%s\n" st (String.concat "" (List.map (fun l -> " " ^ hex (sc l)) out))
         with Failure m -> Printf.printf "bad %s\n" m | Not_found -> print_endline "bad notfound")
+    | "check" :: _ ->
+        let src = String.sub line 6 (String.length line - 6) in
+        (try
+          let p = prog_of (parse_sx src) in
+          print_endline (if check_program p then "accept" else "reject")
+        with Failure m -> Printf.printf "bad %s\n" m | Not_found -> print_endline "bad notfound")
     | _ -> print_endline "bad command") stdin
